@@ -33,7 +33,8 @@ LEVEL_TEXT = ('The text layer of the MDL formats (fixed-width formatting, int()/
 LEVEL_NOTE = ('Lean kernel; gen_mdl translator (literal tables via AST); hand transcription of the text layer validated by '
               'correspondence; ASCII text domain; coordinates restricted to exact multiples of 1/10000; create_molecule, '
               'stereo post-processing, lxml and grep are outside the model.')
-TECHNIQUE = 'Lean 4 round-trip theorems over an executable model of the MDL text layer + regenerated tables + differential testing'
+TECHNIQUE = ('Lean 4 round-trip theorems over an executable model of the MDL text layer + regenerated tables (literal tables, '
+             'option-forwarding table) + differential testing')
 HAS_DRIVER = True
 EXTRA_MODULES = []
 FINDINGS_MODULE = 'ChythonModel.Findings.C11'
@@ -42,6 +43,8 @@ RULE = ('structured: molecules from the repo corpus / handmade set / repo test f
         'writer output is re-read; corrupted variants by single edits (character, field, line, record) at every record '
         'position; a case is non-trivial when the model executed a writer or parser on it; distinct by (stream, text hash)')
 TRUSTED = ['gen_mdl translator (AST literal tables of mol.py / write.py / SDFrw.py)',
+           'gen_mdl_options translator (AST walk over chython/files/*.py: reader options, helper call sites, forwarded keywords and guards)',
+           'Spec/CtfileData.lean, Spec/MdlOptions.lean: transcription of the CTfile specification / the readers\' docstrings',
            'hand transcription of the text layer in Model/C11*.lean (validated by correspondence, not proved against Python)',
            'harness canonicalisers (Decimal(repr(float)) for coordinates)']
 ASSUMPTIONS = ['text is ASCII (Python str.strip()/int()/float() Unicode behaviour is outside the model)',
@@ -1814,6 +1817,8 @@ OPTION_CARRIERS = (('SDFWrite', 'mol', 'file'), ('ESDFWrite', 'mol', 'file'), ('
                    ('SDFWrite', 'mol', 'string'), ('ESDFWrite', 'mol', 'string'),
                    ('RDFWrite', 'rxn', 'string'), ('ERDFWrite', 'rxn', 'string'))
 OPTIONS = ('remap', 'ignore', 'ignore_bad_isotopes', 'calc_cis_trans', 'ignore_stereo')
+# `ignore` also reaches the RXN parsers: a reaction with one unreadable molecule (query atom) — dropped or refused
+OPTION_RXN_PARSE = (('RDFWrite', 'rxn', 'file'), ('ERDFWrite', 'rxn', 'file'), ('RDFWrite', 'rxn', 'string'), ('ERDFWrite', 'rxn', 'string'))
 OPTION_KNOWN = {('RDFWrite', 'mol', 'file', 'remap'): 'C11/options/RDFRead/mol-record/remap',
                 ('ERDFWrite', 'mol', 'file', 'remap'): 'C11/options/RDFRead/mol-record/remap',
                 ('RDFWrite', 'mol', 'file', 'ignore'): 'C11/options/RDFRead/mol-record/ignore',
@@ -1878,10 +1883,52 @@ def _option_read(fmt, kind, api, text, **kw):
     return got[:1]
 
 
+def _query_atom(text):
+    """the one-atom molecule of the record gets a query atom symbol the MOL parsers refuse (V2000 `A`, V3000 `[C,N]`)"""
+    lines = text.split('\n')
+    for i, l in enumerate(lines):
+        if l.startswith('  1  0') and l.endswith('V2000'):
+            lines[i + 1] = lines[i + 1][:31] + 'A  ' + lines[i + 1][34:]
+        elif l.startswith('M  V30 COUNTS 1 0'):
+            lines[i + 2] = lines[i + 2].replace(' C ', ' [C,N] ', 1)
+    return '\n'.join(lines)
+
+
+def rxn_parse_ignore_check(inp):
+    """`ignore` at the RXN parsers: default reads the reaction without the unreadable molecule, ignore=False refuses it"""
+    from chython import ReactionContainer, smiles
+    fmt, api = inp['fmt'], inp['api']
+    m = _option_molecule('remap')
+    q = smiles('C')
+    q.remap({1: 30})
+    text = _query_atom(write_text(fmt, [ReactionContainer([m, q], [m.copy()])]))
+
+    def read(**kw):
+        from chython.files import mdl_rxn
+        try:
+            if api == 'string':
+                lines = text.splitlines(keepends=True)
+                i = next(k for k, l in enumerate(lines) if l.startswith('$RXN'))
+                return [mdl_rxn(''.join(lines[i:]), **kw)]
+            return list(io_classes(fmt)[1](io.StringIO(text), **kw))
+        except Exception as e:
+            return type(e).__name__
+    off, on = read(), read(ignore=False)
+    sig = f'C11/options/{fmt}/rxn-{api}/ignore-parse'
+    bad = None
+    if not (isinstance(off, list) and len(off) == 1 and len(off[0].reactants) == 1 and len(off[0].products) == 1):
+        bad = f'default ignore=True: expected the reaction without the unreadable molecule, got {off if isinstance(off, str) else [str(r) for r in off]}'
+    elif isinstance(on, list) and on:
+        bad = f'ignore=False accepts a reaction with an unreadable molecule: {[str(r) for r in on]}'
+    return (sig, f'{fmt} reaction via {"mdl_rxn" if api == "string" else "reader"}: {bad}', dict(inp, signature=sig)) if bad else None
+
+
 def options_check(inp):
     """property oracle on the real code: the reader option `inp['option']` has its documented effect on this carrier"""
     from chython import ReactionContainer
     fmt, kind, api, option = inp['fmt'], inp['kind2'], inp['api'], inp['option']
+    if option == 'ignore-parse':
+        return rxn_parse_ignore_check(inp)
     m = _option_molecule(option)
     obj = ReactionContainer([m], [m.copy()]) if kind == 'rxn' else m
     text = write_text(fmt, [obj])
@@ -1943,6 +1990,13 @@ def stream_options(ctx):
             r = options_check(inp)
             if r:
                 ctx.fail(*r)
+    for fmt, kind, api in OPTION_RXN_PARSE:
+        inp = {'kind': 'options', 'fmt': fmt, 'kind2': kind, 'api': api, 'option': 'ignore-parse'}
+        ctx.count(('O', fmt, kind, api, 'ignore-parse'))
+        ctx.dist('O:options:ignore-parse')
+        r = options_check(inp)
+        if r:
+            ctx.fail(*r)
 
 
 
@@ -2090,7 +2144,8 @@ def stream_continuation(ctx, n):
                 out.append(l)
                 continue
             phys = split_v30(w, body)
-            out += phys
+            # other programs pad after the prefix: blanks between `M  V30 ` and the first token are not significant
+            out += (['M  V30 ' + rng.choice([' ', '  ']) + phys[0][7:]] + phys[1:]) if rng.random() < 0.25 else phys
             b.add(f'v3cont {w} ' + raw(body), f'L {len(phys)} ' + ' '.join(cps(p) for p in phys) + ' J ' + cps(body.strip()),
                   (tag, 'cont', w), key=(w, body))
         real0 = real_parse3000(lines)
@@ -2107,7 +2162,7 @@ def stream_continuation(ctx, n):
 
 
 def correspond(ctx):
-    ctx.cov['programs'] = 20  # MOLWrite/EMOLWrite._write_molecule, SDFWrite/ESDFWrite/RDFWrite/ERDFWrite.write, parse_mol_v2000/v3000,
+    ctx.cov['programs'] = 22  # (+ mdl_mol, mdl_rxn: option oracle and string-API oracle) MOLWrite/EMOLWrite._write_molecule, SDFWrite/ESDFWrite/RDFWrite/ERDFWrite.write, parse_mol_v2000/v3000,
     # emol.split, parse_rxn_v2000/v3000, postprocess_parsed_molecule, SDFRead/RDFRead._read_block/read_metadata/read_structure,
     # MDLRead.__iter__/__getitem__, reset_index x2, MRVWrite/MRVRead (oracle only)
     mols = molecules(ctx, 60 if ctx.quick else 1500)
